@@ -272,6 +272,22 @@ def drv_ttm(ctx, k, rng):
     ok = hedge.shape == (N, 1, T) and feats.shape == (N, T, 4) and pay.shape == (N,) and hedger.get_input(d, T - 1).shape == (N, 1, 4)
     ctx.check(mon, ok, "consumer_shapes", f"hedge {tuple(hedge.shape)}, features {tuple(feats.shape)}, payoff {tuple(pay.shape)} for N={N}, T={T}",
               sig=sig)
+    # steps counted from the end ("negative indices where accepted"): an accessor that accepts -k answers for step T-k of this same grid
+    mon2 = "grid.steps_from_the_end"
+    for nm in ("moneyness", "log_moneyness", "max_moneyness", "max_log_moneyness"):
+        if not hasattr(d, nm):
+            continue
+        for kk_ in sorted({1, 2, T}):
+            if kk_ > T:
+                continue
+            try:
+                neg = getattr(d, nm)(-kk_)
+            except Exception:
+                continue  # not accepted
+            ctx.seen(mon2)
+            pos = getattr(d, nm)(T - kk_)
+            ctx.check(mon2, neg.shape == pos.shape == (N, 1) and bool(((neg == pos) | (torch.isnan(neg) & torch.isnan(pos))).all()), "step_from_the_end",
+                      f"{nm}({-kk_}) has shape {tuple(neg.shape)} / differs from {nm}({T - kk_}) (T={T}): not the value at step T-{kk_} of the grid", sig=(nm, kk_ == 1))
     # the same stock under a second option of another maturity (same path count): every consumer must move to the new grid
     k2 = int(pick(rng, [1, 2, 4, 7, 11]))
     d2 = P.make_derivative(rng, stock, pick(rng, P.OPTIONS), maturity=k2 * dt)
